@@ -63,8 +63,9 @@ type Op struct {
 
 // Scenario is one history.
 type Scenario struct {
-	ID  int  `json:"id"`
-	Ops []Op `json:"ops"`
+	ID   int   `json:"id"`
+	Ops  []Op  `json:"ops"`
+	Life []Gen `json:"life,omitempty"` // lifetime history on the real emu.ComputeUnit (life.go)
 }
 
 // store is what both wavefront types offer (emu.InstEmuState subset).
@@ -268,7 +269,7 @@ func (w *world) emitAfter(s *side, e string, f ab.Rec, msg string, fresh int) (i
 	}
 	f["st"] = s.name
 	f["chg"] = chg
-	if e == "D" {
+	if e == "D" || e == "DF" {
 		f["init"] = init
 	}
 	if msg != "" {
@@ -535,6 +536,9 @@ func (w *world) release(op *Op) {
 }
 
 func runScenario(rec *ab.Recorder, sc *Scenario) int {
+	if len(sc.Life) > 0 {
+		return runLife(rec, sc)
+	}
 	rec.Emit("Reset", ab.Rec{"sc": sc.ID})
 	w := newWorld(rec)
 	for i := range sc.Ops {
